@@ -4,6 +4,9 @@ import Jasm.Model.Yaml
 import Jasm.Model.Compile
 import Jasm.Model.Stream
 import Jasm.Model.Parser
+import Jasm.Model.Macro
+import Jasm.Model.Pipeline
+import Jasm.Spec.Den
 /-!
 # Line-protocol driver: one JSON request per line on stdin, one JSON reply per line on stdout.
 
@@ -93,8 +96,128 @@ def getInsts (j : Json) : Except String (M (List Inst)) :=
     let t ← j.getObjValAs? String "text"
     pure (parseListing t.toList)
 
-def handle (j : Json) : Except String Json := do
+/-- a document field: `{"err": _}` = the file could not be read / parsed, otherwise the YAML value -/
+def getDoc (j : Json) : Except String (M Y) :=
+  match j with
+  | .obj _ =>
+    match j.getObjVal? "err" with
+    | .ok _ => pure (fail "rule/macro file cannot be loaded")
+    | .error _ => do let y ← yOfJson j; pure (pure y)
+  | _ => do let y ← yOfJson j; pure (pure y)
+
+def jsonOfConfig (c : Config) : Json :=
+  let ob (o : Option Bool) : Json := match o with | some b => .bool b | none => .null
+  Json.mkObj [
+    ("mnemFull", ob c.mnemFull), ("opsFull", ob c.opsFull),
+    ("style", match c.style with | some .att => .str "att" | some .intel => .str "intel" | none => .null),
+    ("range", match c.range with
+      | some (some r) => .arr #[.num (JsonNumber.fromNat r.min), .num (JsonNumber.fromNat r.max)]
+      | some none => .str "None" | none => .null),
+    ("sections", match c.sections with
+      | some l => .arr (l.map fun s => Json.str (strOf s)).toArray | none => .null)]
+
+def handle (st : Config) (j : Json) : Except String (Config × Json) := do
   let op ← j.getObjValAs? String "op"
+  match op with
+  | "reset" => pure ({}, Json.mkObj [("ok", .str "reset")])
+  | "state" => pure (st, Json.mkObj [("ok", jsonOfConfig st)])
+  | "rule" => do
+    let doc ← getDoc (← j.getObjVal? "doc")
+    let mds ← match j.getObjVal? "macroDocs" with
+      | .ok (.arr a) => a.toList.mapM getDoc
+      | _ => pure []
+    match doc with
+    | .error _ => pure (st, Json.mkObj [("err", .str "rule file cannot be loaded")])
+    | .ok d =>
+      let (st', r) := compileRule d mds st
+      pure (st', match r with
+        | .ok rx => Json.mkObj [("ok", .str (strOf rx.render)), ("wf", .bool rx.wf)]
+        | e => replyM e fun _ => Json.null)
+  | "run" => do
+    let doc ← getDoc (← j.getObjVal? "doc")
+    let mds ← match j.getObjVal? "macroDocs" with
+      | .ok (.arr a) => a.toList.mapM getDoc
+      | _ => pure []
+    let kind ← j.getObjValAs? String "kind"
+    let mode ← j.getObjValAs? String "mode"
+    let addrOnly ← j.getObjValAs? Bool "addrOnly"
+    let ret ← j.getObjValAs? String "ret"
+    -- the world: the listing text (or objdump output for the arguments the model asks for)
+    let input : M Str := match j.getObjVal? "text" with
+      | .ok (.str t) => pure t.toList
+      | _ => fail "input cannot be read / disassembled"
+    let expectArgs : Option (List Str) := match j.getObjVal? "objdumpArgs" with
+      | .ok (.arr a) => some (a.toList.filterMap fun x => match x with | .str s => some s.toList | _ => none)
+      | _ => none
+    let w : World := {
+      readFile := fun _ => input,
+      objdump := fun args _ => match expectArgs with
+        | some ea => if ea = args then input else unsup "objdump output supplied for other arguments"
+        | none => input }
+    let o : Op := {
+      doc := doc, macroDocs := mds,
+      kind := if kind == "binary" then .binary else .assembly,
+      path := [], mode := if mode == "all" then .all else .first, addrOnly := addrOnly,
+      ret := if ret == "bool" then .bool else if ret == "list" then .list else .stream }
+    let (st', r) := runOp w st o
+    pure (st', replyM r jsonOfResult)
+  | "judge" => do
+    -- everything about one (rule, listing) pair in one reply: model regex, stream, the results in
+    -- all modes, and the specification's verdict computed from `den` (no regex involved)
+    let doc ← getDoc (← j.getObjVal? "doc")
+    let mds ← match j.getObjVal? "macroDocs" with
+      | .ok (.arr a) => a.toList.mapM getDoc
+      | _ => pure []
+    let insts ← getInsts j
+    match doc with
+    | .error _ => pure (st, Json.mkObj [("err", .str "rule file cannot be loaded")])
+    | .ok d =>
+      let (st', r) := compileRule d mds st
+      let body : M Json := do
+        let rx ← r
+        let l ← insts
+        let kept ← processAll (st'.range.getD none) l
+        let stream := encAll kept
+        let strs (l : List Str) : Json := .arr (l.map fun s => Json.str (strOf s)).toArray
+        let first := reported rx .first false stream
+        let all := reported rx .all false stream
+        let firstA := reported rx .first true stream
+        let allA := reported rx .all true stream
+        -- the typed tree for the specification
+        let spec : Json ← (do
+          let pattern := (match d with | .dict dd => (dictGet dd "pattern").getD .null | _ => .null)
+          let macros := (match d with | .dict dd => (match dictGet dd "macros" with | some (.list l) => l | _ => []) | _ => [])
+          let extra ← mds.foldlM (fun acc md => do
+            match (← md) with
+            | .dict m => match dictGet m "macros" with
+              | some (.list l) => pure (acc ++ l)
+              | _ => fail "bad macro file"
+            | _ => fail "bad macro file") []
+          let tree ← if !macros.isEmpty || !mds.isEmpty then resolveAllMacros (extra ++ macros) (topTree pattern)
+                     else pure (topTree pattern)
+          let (p, _) ← typeTree tree
+          let fl := st'.flags
+          let scan := scanSpec fl p kept (kept.length + 2) 0
+          pure (Json.mkObj [
+            ("found", .bool (foundSpec fl p kept)),
+            ("scan", .arr (scan.map fun (i, n) => Json.arr #[.num (JsonNumber.fromNat i), .num (JsonNumber.fromNat n)]).toArray)]))
+        pure (Json.mkObj [
+          ("regex", .str (strOf rx.render)), ("wf", .bool rx.wf), ("stream", .str (strOf stream)),
+          ("kept", .arr (kept.map jsonOfInst).toArray),
+          ("first", strs first), ("all", strs all), ("firstAddr", strs firstA), ("allAddr", strs allA),
+          ("spec", spec)])
+      pure (st', replyM body id)
+  | "objdumpArgs" => do
+    pure (st, Json.mkObj [("ok", .arr ((objdumpArgs (st.style.getD .att) (st.sections.getD [])).map
+      fun s => Json.str (strOf s)).toArray)])
+  | "expand" => do
+    let macros ← yOfJson (← j.getObjVal? "macros")
+    let tree ← yOfJson (← j.getObjVal? "tree")
+    match macros with
+    | .list ms => pure (st, replyM (resolveAllMacros ms tree) jsonOfY)
+    | _ => throw "macros must be a list"
+  | _ => do let r ← handlePure j op; pure (st, r)
+where handlePure (j : Json) (op : String) : Except String Json := do
   match op with
   | "ping" => pure (Json.mkObj [("ok", .str "pong")])
   | "compile" => do
@@ -132,18 +255,18 @@ def handle (j : Json) : Except String Json := do
         matchInsts rx rng mode addrOnly ret l) jsonOfResult)
   | _ => throw s!"unknown op {op}"
 
-partial def loop (hin : IO.FS.Stream) (hout : IO.FS.Stream) : IO Unit := do
+partial def loop (hin : IO.FS.Stream) (hout : IO.FS.Stream) (st : Config) : IO Unit := do
   let line ← hin.getLine
   if line.isEmpty then return ()
-  let reply : Json :=
+  let (st', reply) : Config × Json :=
     match Json.parse line with
-    | .error e => Json.mkObj [("bad", .str e)]
-    | .ok j => match handle j with
+    | .error e => (st, Json.mkObj [("bad", .str e)])
+    | .ok j => match handle st j with
       | .ok r => r
-      | .error e => Json.mkObj [("bad", .str e)]
+      | .error e => (st, Json.mkObj [("bad", .str e)])
   hout.putStrLn reply.compress
   hout.flush
-  loop hin hout
+  loop hin hout st'
 
 def main : IO Unit := do
-  loop (← IO.getStdin) (← IO.getStdout)
+  loop (← IO.getStdin) (← IO.getStdout) {}
